@@ -149,6 +149,9 @@ def number_spellings(rng, n):
         for s in ("%d.%d" % (m, f), ".%d" % f, "%d.%de%d" % (m, f, e), "%dE%d" % (m, e), ".%de%+d" % (f, e), "%d.e%d" % (m, e), "0.%d" % f,
                   "%d.%dE+%d" % (m, f, abs(e) % 30)):
             out.append((s, float(s if not s.endswith(".") else s + "0")))
+    # (regular expression literals whose first character could be taken for the rest of an operator)
+    out += [("/=/.test('=') ? 1 : 0", 1.0), ("'b=a'.replace(/=a/, '!').length", 2.0), ("var q8 = 8; q8 /= 2; q8", 4.0), ("var q9 = 9; q9 /=/=/.test('=') ? 3 : 1; q9", 3.0),
+            ("[1, 2].length /[1].length/ 1", 2.0), ("/[/]/.test('/') ? 1 : 0", 1.0), ("/\\//.test('/') ? 1 : 0", 1.0)]
     out += [("1e400", float("inf")), ("1e-400", 0.0), ("0.1", 0.1), ("5e-324", 5e-324), ("1.7976931348623157e308", 1.7976931348623157e308),
             ("0.0000001", 1e-7), ("00", 0.0), ("1_0", None)]
     return out
@@ -428,7 +431,7 @@ def main(ctx):
         # spelling denotes as an operand (one metamorphic program per spelling; expected [true, true, true, 'v', 'v', true, 'w'])
         pos_src, pos_sp = [], []
         for sp, want in nums:
-            if want is None or want != want or sp.startswith("-") or sp.startswith("+"):
+            if want is None or want != want or sp.startswith("-") or sp.startswith("+") or not re.fullmatch(r"[0-9a-zA-Z.+_-]+", sp):
                 continue
             prog = ("(function () { var k = Object.keys({%(s)s: 1})[0]; var g = Object.keys({get %(s)s() { return 1; }})[0]; var st = Object.keys({set %(s)s(v) { }})[0]; var o = {%(s)s: 'v'}; "
                     "var sw; switch (%(s)s) { case %(s)s: sw = true; break; default: sw = false; } var a = []; a[0] = 'w'; "
